@@ -110,4 +110,9 @@ META = {
         "note": 'Trusted: Lean kernel, factgen, harness clock scheduler; int64 as Int.',
         "technique": 'Lean 4 induction over interleaved atomic steps + regenerated table (decide) + differential correspondence',
     },
+    "C17": {
+        "text": 'Kernel-checked theorem about a process model instantiated with the shutdown structure of every stage loop REGENERATED from the source on every run (first defer is shutdown(), shutdown calls CancelFunc before a direct recover(), main waits on the context): the death of any stage by return or panic raises the shared termination signal, no panic escapes, and after the signal every stage stops at its next loop top. The safety half (nothing acknowledged beyond what the sink accepted after a fault) is judged on the assembled real stages with injected faults by Lean-evaluated monitors. PARTIAL: defer/recover/goroutine semantics are the Go runtime.',
+        "note": "Trusted: Lean kernel, factgen's structural extraction, Go defer/recover semantics, the fault-injection harness.",
+        "technique": 'Lean 4 theorem over regenerated structural facts + fault-injection harness with Lean-evaluated monitors',
+    },
 }
